@@ -1008,6 +1008,11 @@ def run(ctx):
         hpart = None
     if hpart is not None:
         hpart.run_part(ctx)
+    # values must not depend on what was evaluated before (cached node-set XObjects): props/C11_seq.py
+    try:
+        __import__("importlib").import_module("props.C11_seq").run_part(ctx)
+    except RuntimeError as ex:
+        ctx.broken.append("sequence part: %s" % ex)
     ctx.notes["stripspace_failures"] = len(wbad)
     ctx.notes["oracle_failures"] = len(orc)
     ctx.notes["stylesheet_failures"] = len(sbad)
@@ -1015,6 +1020,8 @@ def run(ctx):
 
 
 def replay(ctx, path):
+    if any(l.startswith("#SEQ ") for l in open(path)):
+        return __import__("importlib").import_module("props.C11_seq").replay(ctx, path)
     core.build_lib("plain")
     impl, ok_h, hlog = core.build_harness("xp", "plain")
     lines = [l.rstrip("\n") for l in open(path) if l.strip() and not l.startswith("#")]
